@@ -14,10 +14,12 @@ import (
 	"sort"
 	"strings"
 	"time"
+	"unsafe"
 
 	"github.com/go-kid/ioc/app"
 	"github.com/go-kid/ioc/component_definition"
 	"github.com/go-kid/ioc/configure/loader"
+	"github.com/go-kid/ioc/container"
 	"github.com/go-kid/ioc/definition"
 	"github.com/go-kid/ioc/syslog"
 )
@@ -53,6 +55,7 @@ type ScnCfg struct {
 	LoaderFail bool           `json:"loaderFail"`
 	Lookups    []string       `json:"lookups"` // names to look up after the start, in this order
 	Dup        []int          `json:"dup"`     // indexes of comps registered a second time (same instance)
+	Trace      bool           `json:"trace"`   // record the calls the factory makes on its singleton registry
 }
 
 type Event struct {
@@ -382,6 +385,147 @@ type Result struct {
 	Lookups  []LookupObs `json:"lookups"`
 	CloseLog []Event     `json:"closelog"`
 	RegNames []string    `json:"regnames"` // GetComponentName of each generated component, by comps index
+	Traced   bool        `json:"traced"`   // the registry tracer could be installed
+	Trace    []TrEv      `json:"trace"`    // registry calls during Run
+	TraceAft []TrEv      `json:"traceaft"` // registry calls during the lookups
+}
+
+// ---- registry tracer -------------------------------------------------------------------------------------
+
+// TrEv is one call on the factory's singleton registry (IsSingletonCurrentlyInCreation is not recorded).
+type TrEv struct {
+	Op string `json:"op"` // g GetSingleton | b creation callback entered | af AddSingletonFactory | eo/ee creation ended ok/with error | as AddSingleton | rm RemoveSingleton
+	N  int    `json:"n"`  // rank of the name, -1 if it is not a registered name
+	E  bool   `json:"e,omitempty"`
+	V  *Token `json:"v,omitempty"` // g: what the early factory returned if it ran without error; eo, as: the version
+	raw any   // the object behind V; resolved to a token once every foreign object (App, built-ins) is known
+}
+
+type tracer struct {
+	inner  container.SingletonComponentRegistry
+	s      *Scn
+	ev     []TrEv
+	curOut *any
+}
+
+func (t *tracer) rank(name string) int {
+	if r, ok := t.s.Cfg.Names[name]; ok {
+		return r
+	}
+	return -1
+}
+
+func raw(m *component_definition.Meta) any {
+	if m == nil {
+		return nil
+	}
+	return m.Raw
+}
+
+func (s *Scn) resolve(evs []TrEv) []TrEv {
+	out := make([]TrEv, len(evs))
+	for i, e := range evs {
+		if e.raw != nil {
+			k := s.token(reflect.ValueOf(e.raw))
+			e.V = &k
+		}
+		out[i] = e
+	}
+	return out
+}
+
+func (t *tracer) AddSingleton(name string, meta *component_definition.Meta) {
+	t.inner.AddSingleton(name, meta)
+	t.ev = append(t.ev, TrEv{Op: "as", N: t.rank(name), raw: raw(meta)})
+}
+
+func (t *tracer) AddSingletonFactory(name string, method container.SingletonFactory) {
+	t.inner.AddSingletonFactory(name, container.FuncSingletonFactory(func() (*component_definition.Meta, error) {
+		m, err := method.GetComponent()
+		if t.curOut != nil && err == nil {
+			*t.curOut = raw(m)
+		}
+		return m, err
+	}))
+	t.ev = append(t.ev, TrEv{Op: "af", N: t.rank(name)})
+}
+
+func (t *tracer) GetSingleton(name string, early bool) (*component_definition.Meta, error) {
+	var out any
+	save := t.curOut
+	t.curOut = &out
+	m, err := t.inner.GetSingleton(name, early)
+	t.curOut = save
+	t.ev = append(t.ev, TrEv{Op: "g", N: t.rank(name), E: early, raw: out})
+	return m, err
+}
+
+func (t *tracer) RemoveSingleton(name string) {
+	t.inner.RemoveSingleton(name)
+	t.ev = append(t.ev, TrEv{Op: "rm", N: t.rank(name)})
+}
+
+func (t *tracer) GetSingletonOrCreateByFactory(name string, fac container.SingletonFactory) (*component_definition.Meta, error) {
+	n := t.rank(name)
+	called := 0
+	var cbRaw any
+	cbOk := false
+	save := t.curOut
+	t.curOut = nil
+	m, err := t.inner.GetSingletonOrCreateByFactory(name, container.FuncSingletonFactory(func() (*component_definition.Meta, error) {
+		called++
+		t.ev = append(t.ev, TrEv{Op: "b", N: n})
+		cm, cerr := fac.GetComponent()
+		cbOk = cerr == nil
+		if cbOk {
+			cbRaw = raw(cm)
+		}
+		return cm, cerr
+	}))
+	t.curOut = save
+	switch {
+	case called == 0:
+		t.ev = append(t.ev, TrEv{Op: "b", N: n})
+	case cbOk:
+		t.ev = append(t.ev, TrEv{Op: "eo", N: n, raw: cbRaw})
+	default:
+		t.ev = append(t.ev, TrEv{Op: "ee", N: n})
+	}
+	return m, err
+}
+
+func (t *tracer) IsSingletonCurrentlyInCreation(name string) bool {
+	return t.inner.IsSingletonCurrentlyInCreation(name)
+}
+
+// installTracer swaps the factory's registry field (found by its type) for the tracing wrapper.
+func installTracer(f container.Factory, t *tracer) (ok bool) {
+	defer func() {
+		if recover() != nil {
+			ok = false
+		}
+	}()
+	v := reflect.ValueOf(f)
+	if v.Kind() != reflect.Pointer || v.Elem().Kind() != reflect.Struct {
+		return false
+	}
+	s := v.Elem()
+	want := reflect.TypeOf((*container.SingletonComponentRegistry)(nil)).Elem()
+	for i := 0; i < s.NumField(); i++ {
+		fld := s.Field(i)
+		if fld.Type() != want {
+			continue
+		}
+		w := reflect.NewAt(fld.Type(), unsafe.Pointer(fld.UnsafeAddr())).Elem()
+		inner, isReg := w.Interface().(container.SingletonComponentRegistry)
+		if !isReg || inner == nil {
+			return false
+		}
+		t.inner = inner
+		w.Set(reflect.ValueOf(container.SingletonComponentRegistry(t)))
+		return true
+	}
+	return false
 }
 
 // Ctors is filled by the generated code: constructor name -> instance builder.
@@ -431,6 +575,14 @@ func RunScenario(cfg *ScnCfg) (res Result) {
 		comps = append(comps, insts[i])
 	}
 	a := app.NewApp()
+	var tr *tracer
+	if cfg.Trace {
+		tr = &tracer{s: s}
+		res.Traced = installTracer(a.Factory, tr)
+		if !res.Traced {
+			tr = nil
+		}
+	}
 	var loaders []any
 	_ = loaders
 	opts := []app.SettingOption{app.LogLevel(syslog.LvPanic)}
@@ -446,6 +598,10 @@ func RunScenario(cfg *ScnCfg) (res Result) {
 	var err error
 	pan := guard(func() { err = a.Run(opts...) })
 	res.Log = append([]Event{}, s.Log...)
+	trMark := 0
+	if tr != nil {
+		trMark = len(tr.ev)
+	}
 	switch {
 	case regPanic != "":
 		res.Outcome = "regpanic"
@@ -501,6 +657,10 @@ func RunScenario(cfg *ScnCfg) (res Result) {
 			res.Lookups = append(res.Lookups, lo)
 		}
 		res.LogAfter = append([]Event{}, s.Log[mark:]...)
+	}
+	if tr != nil {
+		res.Trace = s.resolve(tr.ev[:trMark])
+		res.TraceAft = s.resolve(tr.ev[trMark:])
 	}
 	if res.Outcome == "ok" {
 		mark := len(s.Log)
